@@ -468,9 +468,14 @@ def coq_bad(prop, name, imports, ok, ty, items, shard):
     import shutil
     own = "%s-%d" % (name, os.getpid())
     try:
-        return C.coq_bad_indices(prop, own, imports, ok, ty, items, shard=shard)
+        try:
+            return C.coq_bad_indices(prop, own, imports, ok, ty, items, shard=shard)
+        except RuntimeError:
+            # a coqc child that died without output (killed, out of memory on an overloaded machine) says nothing about model or code: evaluate once more
+            return C.coq_bad_indices(prop, own + "r", imports, ok, ty, items, shard=shard)
     finally:
         shutil.rmtree(os.path.join(C.BUILD, "cases", prop, own), ignore_errors=True)
+        shutil.rmtree(os.path.join(C.BUILD, "cases", prop, own + "r"), ignore_errors=True)
 
 
 def correspond(rep, name, variant, texts, P, with_matches=False, shard=1500, what=None):
